@@ -1201,7 +1201,9 @@ def _extra_cases(pid, tier, rng, n_enum, n_rand):
                         inv = {"inverse_paths": True} if (gi + ci + mi + ti) % 2 else {}
                         runs.append({"cfg": _merge(_mode_cfg(mode), inv, {"_channel": ch}), "t": t})
             out.append({"pid": pid, "kind": "rdflib", "origin": "rdflib-channel", "nt": U.to_nt(T), "runs": runs})
-        fam = U.mixed_family(rng, 0, n_of(5), big=False)
+        # C01 is stated for duplicate-free graphs: texts that repeat a line are OUTSIDE its domain (the N-Triples path counts lines, the rdflib
+        # path triples - recorded in DESIGN.md as an observation, not a C01 finding).  The family is kept for the selftest only.
+        fam = U.mixed_family(rng, 0, n_of(5), big=False) if tier == "selftest-duplicates" else []
         for gi, (origin, T) in enumerate(fam):         # statements written twice
             dk = ("type", "data")[gi % 2]
             T2 = U.add_duplicate_lines(T, rng, dk, n=rng.randint(1, 2))
@@ -1809,8 +1811,7 @@ def _mutants():
          setattr_patch(cpf, "tune_target_classes_if_needed", lambda list_target_classes, prefix_namespaces_dict: list(list_target_classes))),
         ("C10", "(3) get_class_profiler passes the raw (untuned) class list to the profiler",
          setattr_patch(cpf, "tune_target_classes_if_needed", lambda list_target_classes, prefix_namespaces_dict: list(list_target_classes))),
-        ("C01", "(4) _init_annotated_direct_features iterates dict.fromkeys(class_list)",
-         setattr_patch(afds.AbstractFeatureDirectionStrategy, "_init_annotated_direct_features", init_direct_fromkeys)),
+        # (4) dict.fromkeys(class_list): only visible on texts with repeated lines, which are outside C01's domain (duplicate-free graphs)
         ("C09", "(5) _look_for_last_index_of_bnode_token rewritten with the regex _:[\\w\\-]+",
          setattr_patch(nty.NtTriplesYielder, "_look_for_last_index_of_bnode_token", bnode_token_regex)),
         ("C10", "(6a) module-level memo in tune_target_classes_if_needed keyed by the class list only", patch_tune_memo),
